@@ -12,8 +12,13 @@ Definition try_from (start count : N) : range_err + (N * N) :=
   else if (65535 - (count - 1)) <? start then inl AddressOverflow
   else inr (start, count).
 
+(* the fields of AddressRange are public, so limited_count re-validates the range with try_from
+   before applying the per-type limit (repair 3d39d18, finding F10) *)
 Definition limited_count (r : N * N) (limit : N) : range_err + (N * N) :=
-  if limit <? snd r then inl CountTooLargeForType else inr r.
+  match try_from (fst r) (snd r) with
+  | inl e => inl e
+  | inr range => if limit <? snd range then inl CountTooLargeForType else inr r
+  end.
 
 Definition of_read_bits (r : N * N) : range_err + (N * N) := limited_count r max_read_coils_count.
 Definition of_read_registers (r : N * N) : range_err + (N * N) := limited_count r max_read_registers_count.
